@@ -191,13 +191,12 @@ Fixpoint change_dec (fs : list field) (kv : list (string * json)) : res (list cf
   | [] => Ok []
   | Field _ n _ ft :: fr =>
       rbind (match ft with
-             | TStr => match lookup_f (names f_Change) n kv with
-                       | None => Ok (CStr "")
-                       | Some j => rbind (dec TStr j) (fun v => match v with VStr s => Ok (CStr s) | _ => Unmodelled end)
-                       end
-             | TPtr TOSMRef => match lookup_f (names f_Change) n kv with
-                               | None | Some JNull => Ok (COsm None)
-                               | Some j => rmap (fun o => COsm (Some o)) (osm_unmarshal j)
+             | TStr => rbind (dec_occs (dec TStr) TStr (entries_f (names f_Change) n kv))
+                             (fun v => match v with VStr s => Ok (CStr s) | _ => Unmodelled end)
+             | TPtr TOSMRef => match entries_f (names f_Change) n kv with
+                               | [] | [JNull] => Ok (COsm None)
+                               | [j] => rmap (fun o => COsm (Some o)) (osm_unmarshal j)
+                               | _ => Unmodelled
                                end
              | _ => Unmodelled
              end)
